@@ -44,8 +44,170 @@ package midix
 //@   loop 0 invariant forall(i, rangeindex + 1, len(ts.list), i != trackNo ==> ts.list[i].tickDelta == old(ts.list[i].tickDelta) && ts.list[i].ops == old(ts.list[i].ops))
 //@   loop 0 decreases len(ts.list) - rangeindex
 
+
+//@ define validOpType(t) (is(t, *MetaTrack) && as(t, *MetaTrack) != nil) || (is(t, *FixedTrack) && as(t, *FixedTrack) != nil && as(t, *FixedTrack).TrackNo >= 0)
+
+//@ define selIdx(t, ot) spec.selOf(t, is(ot, *MetaTrack), ite(is(ot, *FixedTrack), as(ot, *FixedTrack).TrackNo, 0))
+
+//@ iface TrackNoSelector.Select (t, opType) returns (r)
+//@   pure
+//@   requires validOpType(opType)
+//@   ensures r == selIdx(t, opType)
+//@   ensures 0 <= r && r < spec.selRange(t)
+//@   ensures is(opType, *MetaTrack) ==> r == 0
+
 // meta operations go to track 0; the i-th note of a chord to track 1 + i mod (N-1) (track 0 when N == 1)
 //@ func TrackNoSelectorImpl.Select returns (r)
 //@   pure
-//@   requires t.trackNum >= 1
+//@   requires t.trackNum >= 1 && validOpType(opType)
 //@   ensures 0 <= r && r < t.trackNum
+//@   ensures is(opType, *MetaTrack) ==> r == 0
+//@   ensures is(opType, *FixedTrack) ==> r == ite(t.trackNum == 1, 0, 1 + spec.fmod(as(opType, *FixedTrack).TrackNo, t.trackNum - 1))
+
+// ---- the controller: history of submitted operations ----
+
+//@ define sub(c) ghost(ghostSubmitted, c)
+//@ define wfCtl(c) c != nil && c.selector != nil && c.set != nil && wfSet(c.set) && spec.selRange(c.selector) == len(c.set.list) && len(c.set.list) >= 1
+
+// Add: some track n (track 0 for meta operations) receives op as by TrackSet.Add.
+//@ func TrackSetController.Add
+//@   modifies Track, op, ghostSubmitted
+//@   allocs []*TrackOp
+//@   requires wfCtl(c) && op != nil && validOpType(op.Type)
+//@   ensures 0 <= selIdx(c.selector, old(op.Type)) && selIdx(c.selector, old(op.Type)) < len(c.set.list) && (is(op.Type, *MetaTrack) ==> selIdx(c.selector, old(op.Type)) == 0)
+//@   ensures op.TickDelta == spec.u32(old(op.TickDelta) + old(c.set.list[selIdx(c.selector, op.Type)].tickDelta))
+//@   ensures c.set.list[selIdx(c.selector, old(op.Type))].tickDelta == 0
+//@   ensures len(c.set.list[selIdx(c.selector, old(op.Type))].ops) == old(len(c.set.list[selIdx(c.selector, op.Type)].ops)) + 1
+//@   ensures c.set.list[selIdx(c.selector, old(op.Type))].ops[len(c.set.list[selIdx(c.selector, old(op.Type))].ops) - 1] == op
+//@   ensures forall(i, 0, len(c.set.list), i != selIdx(c.selector, old(op.Type)) ==> c.set.list[i].tickDelta == spec.u32(old(c.set.list[i].tickDelta) + old(op.TickDelta)) && c.set.list[i].ops == old(c.set.list[i].ops))
+//@   ensures op.Func == old(op.Func) && op.Type == old(op.Type)
+//@   ghostensures sub(c).N == old(sub(c).N) + 1
+//@   ghostensures sub(c).Delta == store(old(sub(c).Delta), old(sub(c).N), old(op.TickDelta))
+//@   ghostensures sub(c).Meta == store(old(sub(c).Meta), old(sub(c).N), is(op.Type, *MetaTrack))
+//@   ghostensures sub(c).Fixed == store(old(sub(c).Fixed), old(sub(c).N), ite(is(op.Type, *FixedTrack), as(op.Type, *FixedTrack).TrackNo, 0 - 1))
+//@   ghostensures sub(c).All == store(old(sub(c).All), old(sub(c).N), false)
+//@   ghostensures sub(c).Func == store(old(sub(c).Func), old(sub(c).N), op.Func)
+
+//@ define lastOp(c, i) c.set.list[i].ops[len(c.set.list[i].ops) - 1]
+
+// Distribute: every track receives the operation as its last one, carrying that
+// track's own pending delay plus the operation's delay; nothing pending remains.
+//@ func TrackSetController.Distribute
+//@   modifies Track, ghostSubmitted
+//@   allocs TrackOp, []*TrackOp
+//@   requires wfCtl(c) && op != nil
+//@   ensures forall(i, 0, len(c.set.list), c.set.list[i].tickDelta == 0 && len(c.set.list[i].ops) == old(len(c.set.list[i].ops)) + 1)
+//@   ensures forall(i, 0, len(c.set.list), lastOp(c, i) != nil && lastOp(c, i).Func == old(op.Func) && lastOp(c, i).Type == old(op.Type) && lastOp(c, i).TickDelta == spec.u32(old(op.TickDelta) + old(c.set.list[i].tickDelta)))
+//@   ensures forall(i, 0, len(c.set.list), forall(k, 0, old(len(c.set.list[i].ops)), c.set.list[i].ops[k] == old(c.set.list[i].ops[k])))
+//@   ensures forall(i, 0, len(c.set.list), forall(j, 0, len(c.set.list), i != j ==> lastOp(c, i) != lastOp(c, j)))
+//@   ghostensures sub(c).N == old(sub(c).N) + 1
+//@   ghostensures sub(c).Delta == store(old(sub(c).Delta), old(sub(c).N), old(op.TickDelta))
+//@   ghostensures sub(c).All == store(old(sub(c).All), old(sub(c).N), true)
+//@   ghostensures sub(c).Func == store(old(sub(c).Func), old(sub(c).N), op.Func)
+//@   loop 0 modifies Track
+//@   loop 0 allocs TrackOp, []*TrackOp
+//@   loop 0 invariant 0 <= i && i < len(c.set.list)
+//@   loop 0 invariant forall(j, 0, i, c.set.list[j].tickDelta == 0 && len(c.set.list[j].ops) == old(len(c.set.list[j].ops)) + 1)
+//@   loop 0 invariant forall(j, 0, i, lastOp(c, j) != nil && fresh(lastOp(c, j)) && lastOp(c, j).Func == old(op.Func) && lastOp(c, j).Type == old(op.Type) && lastOp(c, j).TickDelta == spec.u32(old(op.TickDelta) + old(c.set.list[j].tickDelta)))
+//@   loop 0 invariant forall(j, 0, i, forall(k, 0, old(len(c.set.list[j].ops)), c.set.list[j].ops[k] == old(c.set.list[j].ops[k])))
+//@   loop 0 invariant forall(j, 0, i, forall(l, 0, i, j != l ==> lastOp(c, j) != lastOp(c, l)))
+//@   loop 0 invariant forall(j, i, len(c.set.list), c.set.list[j].tickDelta == old(c.set.list[j].tickDelta) && c.set.list[j].ops == old(c.set.list[j].ops))
+//@   loop 0 decreases len(c.set.list) - i
+
+// ---- the MIDI writer (C02, C07, C08): what each call submits, and when ----
+
+//@ define wfW(w) w != nil && wfCtl(w.set)
+//@ define sameW(w) w.clock == old(w.clock) && w.quoaterNoteTicks == old(w.quoaterNoteTicks) && w.set == old(w.set) && w.instrument == old(w.instrument) && w.program == old(w.program)
+//@ define subW(w) ghost(ghostSubmitted, w.set)
+//@ define oneMore(w) subW(w).N == old(subW(w).N) + 1 && subW(w).Delta[old(subW(w).N)] == old(w.tickDelta) && forall(k, 0, old(subW(w).N), subW(w).Delta[k] == old(subW(w).Delta[k]) && subW(w).Func[k] == old(subW(w).Func[k]) && subW(w).Meta[k] == old(subW(w).Meta[k]) && subW(w).Fixed[k] == old(subW(w).Fixed[k]) && subW(w).All[k] == old(subW(w).All[k]))
+//@ define lastF(w) subW(w).Func[old(subW(w).N)]
+//@ define lastMeta(w) subW(w).Meta[old(subW(w).N)] && !subW(w).All[old(subW(w).N)]
+
+// a rest only lengthens the pending delay by round(T x v)
+//@ func MIDIWriter.Rest
+//@   modifies w
+//@   requires w != nil
+//@   ensures w.tickDelta == spec.u32(old(w.tickDelta) + spec.ticks(w.quoaterNoteTicks, value)) && sameW(w)
+
+// control events consume the pending delay: they land where the next instance starts, on the meta track
+//@ func MIDIWriter.Tempo
+//@   modifies w, Track, ghostSubmitted
+//@   allocs TrackOp, MetaTrack, MetaTempo, []*TrackOp
+//@   requires wfW(w)
+//@   ensures w.tickDelta == 0 && sameW(w) && oneMore(w) && lastMeta(w)
+//@   ensures is(lastF(w), *MetaTempo) && as(lastF(w), *MetaTempo) != nil && as(lastF(w), *MetaTempo).BPM == float64(bpm)
+
+//@ func MIDIWriter.Meter
+//@   modifies w, Track, ghostSubmitted
+//@   allocs TrackOp, MetaTrack, MetaMeter, []*TrackOp
+//@   requires wfW(w)
+//@   ensures w.tickDelta == 0 && sameW(w) && oneMore(w) && lastMeta(w)
+//@   ensures is(lastF(w), *MetaMeter) && as(lastF(w), *MetaMeter) != nil && as(lastF(w), *MetaMeter).Num == num && as(lastF(w), *MetaMeter).Denom == denom
+
+//@ func MIDIWriter.Key
+//@   modifies w, Track, ghostSubmitted
+//@   allocs TrackOp, MetaTrack, MetaKey, []*TrackOp
+//@   requires wfW(w)
+//@   ensures w.tickDelta == 0 && sameW(w) && oneMore(w) && lastMeta(w)
+//@   ensures is(lastF(w), *MetaKey) && as(lastF(w), *MetaKey) != nil && as(lastF(w), *MetaKey).Key == key && as(lastF(w), *MetaKey).IsMajor == isMajor && as(lastF(w), *MetaKey).Num == num && as(lastF(w), *MetaKey).IsFlat == isFlat
+
+//@ func MIDIWriter.Text
+//@   modifies w, Track, ghostSubmitted
+//@   allocs TrackOp, MetaTrack, MetaText, []*TrackOp
+//@   requires wfW(w)
+//@   ensures w.tickDelta == 0 && sameW(w) && oneMore(w) && lastMeta(w)
+//@   ensures is(lastF(w), *MetaText) && as(lastF(w), *MetaText) != nil && as(lastF(w), *MetaText).Text == text
+
+//@ func MIDIWriter.Lyric
+//@   modifies w, Track, ghostSubmitted
+//@   allocs TrackOp, MetaTrack, MetaLyric, []*TrackOp
+//@   requires wfW(w)
+//@   ensures w.tickDelta == 0 && sameW(w) && oneMore(w) && lastMeta(w)
+//@   ensures is(lastF(w), *MetaLyric) && as(lastF(w), *MetaLyric) != nil && as(lastF(w), *MetaLyric).Text == text
+
+//@ func MIDIWriter.Marker
+//@   modifies w, Track, ghostSubmitted
+//@   allocs TrackOp, MetaTrack, MetaMarker, []*TrackOp
+//@   requires wfW(w)
+//@   ensures w.tickDelta == 0 && sameW(w) && oneMore(w) && lastMeta(w)
+//@   ensures is(lastF(w), *MetaMarker) && as(lastF(w), *MetaMarker) != nil && as(lastF(w), *MetaMarker).Text == text
+
+// Close: every track ends with an end-of-track operation carrying the pending delay (trailing rests included)
+//@ func MIDIWriter.Close
+//@   modifies w, Track, ghostSubmitted
+//@   allocs TrackOp, MetaTrack, Close, []*TrackOp
+//@   requires wfW(w)
+//@   ensures w.tickDelta == 0 && sameW(w)
+//@   ensures subW(w).N == old(subW(w).N) + 1 && subW(w).Delta[old(subW(w).N)] == old(w.tickDelta) && subW(w).All[old(subW(w).N)] && is(lastF(w), *Close)
+//@   ensures forall(i, 0, len(w.set.set.list), w.set.set.list[i].tickDelta == 0 && len(w.set.set.list[i].ops) == old(len(w.set.set.list[i].ops)) + 1 && lastOp(w.set, i) != nil && is(lastOp(w.set, i).Func, *Close) && lastOp(w.set, i).TickDelta == spec.u32(old(w.tickDelta) + old(w.set.set.list[i].tickDelta)))
+
+//@ define isOn(f, k, vel) is(f, *NoteOn) && as(f, *NoteOn) != nil && as(f, *NoteOn).Channel == 0 && as(f, *NoteOn).Key == k && as(f, *NoteOn).Velocity == vel
+//@ define isOff(f, k) is(f, *NoteOff) && as(f, *NoteOff) != nil && as(f, *NoteOff).Channel == 0 && as(f, *NoteOff).Key == k
+//@ define prefixSame(w) forall(k, 0, old(subW(w).N), subW(w).Delta[k] == old(subW(w).Delta[k]) && subW(w).Func[k] == old(subW(w).Func[k]) && subW(w).Meta[k] == old(subW(w).Meta[k]) && subW(w).Fixed[k] == old(subW(w).Fixed[k]) && subW(w).All[k] == old(subW(w).All[k]))
+//@ define onAt(w, j, d) subW(w).Delta[old(subW(w).N) + j] == d && !subW(w).Meta[old(subW(w).N) + j] && !subW(w).All[old(subW(w).N) + j] && subW(w).Fixed[old(subW(w).N) + j] == j && isOn(subW(w).Func[old(subW(w).N) + j], key[j], velocity)
+//@ define offAt(w, j, d) subW(w).Delta[old(subW(w).N) + len(key) + j] == d && !subW(w).Meta[old(subW(w).N) + len(key) + j] && !subW(w).All[old(subW(w).N) + len(key) + j] && subW(w).Fixed[old(subW(w).N) + len(key) + j] == j && isOff(subW(w).Func[old(subW(w).N) + len(key) + j], key[j])
+
+// Note: one note-on per key at the start (the first carries the pending delay), then one
+// note-off per key, same key and channel, the first carrying the length round(T x v).
+//@ func MIDIWriter.Note returns (err)
+//@   modifies w, Track, ghostSubmitted
+//@   allocs TrackOp, FixedTrack, NoteOn, NoteOff, []*TrackOp
+//@   requires wfW(w)
+//@   ensures (err == nil) == (len(key) > 0)
+//@   ensures err != nil ==> w.tickDelta == old(w.tickDelta) && subW(w).N == old(subW(w).N)
+//@   ensures err == nil ==> w.tickDelta == 0 && sameW(w) && subW(w).N == old(subW(w).N) + 2 * len(key) && prefixSame(w)
+//@   ensures err == nil ==> forall(j, 0, len(key), onAt(w, j, ite(j == 0, old(w.tickDelta), 0)))
+//@   ensures err == nil ==> forall(j, 0, len(key), offAt(w, j, ite(j == 0, spec.ticks(w.quoaterNoteTicks, value), 0)))
+//@   loop 0 modifies Track, ghostSubmitted
+//@   loop 0 allocs TrackOp, FixedTrack, NoteOn, []*TrackOp
+//@   loop 0 invariant 0 - 1 <= rangeindex && rangeindex < len(key)
+//@   loop 0 invariant subW(w).N == old(subW(w).N) + rangeindex + 1 && prefixSame(w)
+//@   loop 0 invariant forall(j, 0, rangeindex + 1, onAt(w, j, ite(j == 0, old(w.tickDelta), 0)))
+//@   loop 0 decreases len(key) - rangeindex
+//@   loop 1 modifies Track, ghostSubmitted
+//@   loop 1 allocs TrackOp, FixedTrack, NoteOff, []*TrackOp
+//@   loop 1 invariant 0 - 1 <= rangeindex && rangeindex < len(key)
+//@   loop 1 invariant subW(w).N == old(subW(w).N) + len(key) + rangeindex + 1 && prefixSame(w)
+//@   loop 1 invariant forall(j, 0, len(key), onAt(w, j, ite(j == 0, old(w.tickDelta), 0)))
+//@   loop 1 invariant forall(j, 0, rangeindex + 1, offAt(w, j, ite(j == 0, spec.ticks(w.quoaterNoteTicks, value), 0)))
+//@   loop 1 decreases len(key) - rangeindex
